@@ -59,6 +59,9 @@ func checkC13(c *Ctx) {
 	c.Rule("C13-R17", "the neighbour is used to paint the bottom-right corner only: the insert-character emission of drawCell is reached only where x == w-1 and y == h-1 are both known (a helper that answers for every row of the last column rewrites unchanged, possibly locked, neighbours)")
 	c.Expect("C13-R17", 1)
 	checkCornerTrickOnlyInTheCorner(c, p, "C13-R17")
+	c.Rule("C13-R18", "cell content is written only to the cells that changed: the cursor address sent before a cell is expanded from its coordinates each time, never taken from a cache of address strings kept by the screen (colliding keys or a stale geometry send content to a cell that did not change)")
+	c.Expect("C13-R18", 1)
+	checkAddressesNotCached(c, p, "C13-R18")
 	c.Rule("C13-R10", "a cell marked dirty (marker rune zero: SetDirty(true), Invalidate, UnlockCell) is reported dirty whatever it holds, also one nothing was ever stored in; combining runes are compared in full")
 	c.Expect("C13-R10", 2)
 	c.asRule("C08-R9", "C13-R10", func() { checkDirtyDecisions(c, p, "C08-R9") })
